@@ -101,6 +101,9 @@ def run(chk, replay=None):
         from checks import g03
         g03.run_growth(chk, tier, chk.seed)
         chk.assumptions.append("growth (drift only): ADAttrs.tla / LDAPHelpers.tla -- AD attribute tables, NTSTATUS layout, pure LDAP/Kerberos/DNS helpers (DESIGN 13.7 G03)")
+        from checks import g08
+        g08.run_growth(chk, tier, chk.seed)
+        chk.assumptions.append("growth (drift only): SchemaTables.tla -- the AD schema tables of network/ldap/schema as relations (DESIGN 13.7 G08)")
         # ---- the same entry points called by 8 goroutines at once (race-detector build): results as when called alone
         vlib.parallel_callers(chk, "flags")
     finally:
